@@ -356,7 +356,7 @@ def sub_progressions(ctx, shard, n):
     strat = st.builds(lambda prog, i, ra, k: [ra[0], prog, (i % len(prog)) if i >= 0 else -1 - ((-i - 1) % len(prog)), ra[1], k],
                       st.lists(el, min_size=1, max_size=4), st.integers(-4, 3), st.sampled_from(_rule_args()),
                       st.sampled_from(MAJORS))
-    ctx.given("rule", check_rule, strat, 2500 if ctx.quick else 10000)
+    ctx.given("rule", check_rule, strat, 2500 if ctx.quick else 20000)
     # whole progressions with repeated degrees (same numeral with different prefixes / suffixes)
     def mk(degs, picks, key):
         return [[R.prefix(a) + (degs[i % len(degs)].lower() if lo else degs[i % len(degs)]) + suf for (i, a, lo, suf) in picks], key]
